@@ -325,11 +325,36 @@ func decodeOps(stmts []ast.Stmt, recv string, fieldOf map[string]string, inlineH
 			if len(body) > 0 {
 				out = append(out, wop{kind: "LOOP", label: over, body: body, pos: st.Pos()})
 			}
+		case *ast.ForStmt:
+			// for i := 0; i < len(x); i++ { x[i] = d.int() }
+			over := ""
+			if be, ok := st.Cond.(*ast.BinaryExpr); ok && be.Op == token.LSS {
+				if call, ok := be.Y.(*ast.CallExpr); ok && len(call.Args) == 1 {
+					if id, ok := call.Fun.(*ast.Ident); ok && id.Name == "len" {
+						if x, ok := call.Args[0].(*ast.Ident); ok {
+							over = lab(x.Name)
+						}
+					}
+				}
+			}
+			body := decodeOps(st.Body.List, recv, fieldOf, inlineHelper, c)
+			if len(body) > 0 {
+				out = append(out, wop{kind: "LOOP", label: over, body: body, pos: st.Pos()})
+			}
 		case *ast.SwitchStmt:
 			if st.Tag == nil {
 				continue
 			}
-			if m, ok := innerDecodeCall(st.Tag, recv); !ok || m != "int" {
+			tagExpr := st.Tag
+			// switch tag := d.int(); tag { ... }
+			if as, ok := st.Init.(*ast.AssignStmt); ok && len(as.Lhs) == 1 && len(as.Rhs) == 1 {
+				if l, ok := as.Lhs[0].(*ast.Ident); ok {
+					if t, ok := st.Tag.(*ast.Ident); ok && t.Name == l.Name {
+						tagExpr = as.Rhs[0]
+					}
+				}
+			}
+			if m, ok := innerDecodeCall(tagExpr, recv); !ok || m != "int" {
 				continue
 			}
 			sw := wop{kind: "SWITCH", arms: map[string][]wop{}, pos: st.Pos()}
@@ -856,8 +881,17 @@ func ruleZ3(c *Ctx) {
 		if !ok || sw.Tag == nil {
 			return true
 		}
-		if _, isDec := innerDecodeCall(sw.Tag, "d"); !isDec {
-			if m, ok := innerDecodeCall(sw.Tag, localOfType(s.decode, info, "decoder")); !ok || m == "" {
+		tagExpr := sw.Tag
+		// switch tag := d.int(); tag { ... }
+		if as, ok := sw.Init.(*ast.AssignStmt); ok && len(as.Lhs) == 1 && len(as.Rhs) == 1 {
+			if l, ok := as.Lhs[0].(*ast.Ident); ok {
+				if t, ok := sw.Tag.(*ast.Ident); ok && t.Name == l.Name {
+					tagExpr = as.Rhs[0]
+				}
+			}
+		}
+		if _, isDec := innerDecodeCall(tagExpr, "d"); !isDec {
+			if m, ok := innerDecodeCall(tagExpr, localOfType(s.decode, info, "decoder")); !ok || m == "" {
 				return true
 			}
 		}
